@@ -142,6 +142,27 @@ Theorem C05_step : forall s o, Inv s -> defined s o ->
 Proof. exact step_refines. Qed.
 Print Assumptions C05_step.
 
+(* "defined" is implied by the API-level preconditions: in a state satisfying the invariant the
+   model is "unspecified" only for an iterator that points at no element of the tree (the Go code
+   would touch a freed or foreign cell), a tree index out of range, a non-uint32 key/value, a node
+   index malloc cannot hand out, or CloneDeep onto a non-empty slot; lookups, DeleteWithKey and
+   operations on Limit / NegativeLimit are always defined *)
+Theorem C05_defined : forall s o, Inv s ->
+  match o with
+  | OInsert ti k v id =>
+      (ti < length (trees s))%nat /\ is_u32 k = true /\ is_u32 v = true /\
+      (mem k (get_tree s ti) = true \/ exists sz', malloc (live s) (asize s) id = MOk sz')
+  | ODeleteIt ti it | ONext ti it | OPrev ti it =>
+      it = limit \/ it = neg_limit \/ item_of it (get_tree s ti) <> None
+  | OClone src dst new =>
+      (src < length (trees s))%nat /\ (dst < length (trees s))%nat /\ get_tree s dst = E /\
+      Z.of_nat (length new) = tsize (get_tree s src) /\
+      exists sz', malloc_seq (live s) (asize s) new = MOk sz'
+  | _ => True
+  end -> defined s o.
+Proof. exact defined_if. Qed.
+Print Assumptions C05_defined.
+
 (* operations on one tree leave every other tree of the allocator untouched *)
 Theorem C05_frame : forall s o tj,
   (match o with
